@@ -70,6 +70,7 @@ type originAnalysis struct {
 	memo  map[ssa.Value]origin
 	cells map[*ssa.Alloc]origin // origin of reference content stored in local allocs
 	ret   func(g *ssa.Function) origin
+	depth int
 }
 
 func newOriginAnalysis(f *ssa.Function, ret func(g *ssa.Function) origin) *originAnalysis {
@@ -117,7 +118,17 @@ func (oa *originAnalysis) of1(v ssa.Value) origin {
 	switch x := v.(type) {
 	case *ssa.Const:
 		return oFresh
-	case *ssa.Parameter, *ssa.FreeVar:
+	case *ssa.Parameter:
+		if !hasRefs(x.Type()) {
+			return oFresh
+		}
+		// a parameter of a function literal that is only ever called on the spot (f(args), go f(args),
+		// defer f(args)) refers to what the arguments at those sites refer to
+		if o, ok := oa.literalParam(x); ok {
+			return o
+		}
+		return oParam
+	case *ssa.FreeVar:
 		if hasRefs(x.Type()) {
 			return oParam
 		}
@@ -233,6 +244,81 @@ func (oa *originAnalysis) of1(v ssa.Value) origin {
 		return o
 	}
 	return oUnknown
+}
+
+// literalParam: origin of parameter p of a function literal from its call sites in the enclosing function.
+func (oa *originAnalysis) literalParam(p *ssa.Parameter) (origin, bool) {
+	f := oa.f
+	parent := f.Parent()
+	if parent == nil || parent.Blocks == nil {
+		return 0, false
+	}
+	idx := -1
+	for k, q := range f.Params {
+		if q == p {
+			idx = k
+		}
+	}
+	if idx < 0 {
+		return 0, false
+	}
+	var sites []ssa.CallInstruction
+	okAll := true
+	eachInstr(parent, func(i ssa.Instruction) {
+		for _, op := range i.Operands(nil) {
+			if op == nil || *op == nil {
+				continue
+			}
+			uses := false
+			switch v := (*op).(type) {
+			case *ssa.MakeClosure:
+				uses = v.Fn == ssa.Value(f)
+			case *ssa.Function:
+				uses = v == f
+			}
+			if !uses {
+				continue
+			}
+			ci, isCall := i.(ssa.CallInstruction)
+			if _, isMC := i.(*ssa.MakeClosure); isMC {
+				continue // the closure value itself; its uses are looked at where it is called
+			}
+			if !isCall || unwrapClosureValue(ci.Common().Value) != f {
+				okAll = false
+				continue
+			}
+			sites = append(sites, ci)
+		}
+	})
+	if !okAll || len(sites) == 0 {
+		return 0, false
+	}
+	if oa.depth > 2 {
+		return 0, false
+	}
+	pa := newOriginAnalysis(parent, oa.ret)
+	pa.depth = oa.depth + 1
+	var o origin
+	for _, ci := range sites {
+		if idx < len(ci.Common().Args) {
+			o |= pa.of(ci.Common().Args[idx])
+		}
+	}
+	if o == 0 {
+		o = oFresh
+	}
+	return o, true
+}
+
+func unwrapClosureValue(v ssa.Value) *ssa.Function {
+	switch x := v.(type) {
+	case *ssa.MakeClosure:
+		f, _ := x.Fn.(*ssa.Function)
+		return f
+	case *ssa.Function:
+		return x
+	}
+	return nil
 }
 
 // elemOrigin: origin of the reference content of the elements of a varargs slice (new [n]T; stores).
